@@ -31,6 +31,10 @@ type C16Case struct {
 	// compressed bytes (1<<16 is the largest size its header can state)
 	Full     int `json:"full,omitempty"`
 	FullSize int `json:"full_size,omitempty"`
+	// Dict / MaxRaw: dictionary size of the stream (default 64 KiB) and upper
+	// bound of the uncompressed chunks' sizes (default 40; may exceed Dict)
+	Dict   int `json:"dict,omitempty"`
+	MaxRaw int `json:"max_raw,omitempty"`
 }
 
 var c16Prefixes = [][]string{{}, {"LRND"}, {"UD"}, {"LRND", "U"}, {"UD", "U"}}
@@ -90,6 +94,11 @@ func genC16(r *sim.Rng, tier string, idx int) *C16Case {
 			}
 		}
 		c := &C16Case{Mode: "seq", Kinds: kinds, Seed: r.Uint64(), Reads: reads, Frag: frag, MaxOps: r.Range(1, 60)}
+		if r.Chance(1, 6) {
+			// a small dictionary, uncompressed chunks up to several times its size
+			c.Dict = sim.Pick(r, []int{4096, 4096, 8192})
+			c.MaxRaw = c.Dict * r.Range(1, 4)
+		}
 		if r.Chance(1, 25) {
 			var lz []int
 			for i, k := range kinds {
@@ -116,6 +125,12 @@ func realiseC16(c *C16Case) (cs *refenc.ChunkSeq, legal bool, bad int) {
 	r := sim.NewRng(c.Seed)
 	kinds := append([]string(nil), c.Kinds...)
 	o := refenc.SeqOptions{MaxOpsPerChunk: c.MaxOps, MaxRaw: 40, DictSize: 1 << 16}
+	if c.Dict > 0 {
+		o.DictSize = int64(c.Dict)
+	}
+	if c.MaxRaw > 0 {
+		o.MaxRaw = c.MaxRaw
+	}
 	if c.Mode == "ctl" {
 		ctl := byte(c.Ctl)
 		k, ok := reflzma.KindOf(ctl)
